@@ -60,7 +60,7 @@ ConvFailed(e) ==
   \cup (IF r.ok THEN
           (IF Conforms(r.val.ty, StripOpt(t)) /\ ~HasOpt(r.val.ty) THEN {} ELSE {"C08.ResultConforms"})
           \cup (IF Resolved(r.val.ty, in.ty, t) THEN {} ELSE {"C08.KeepsResolvedPlaceholders"})
-          \cup (IF WellFormed(r.val) THEN {} ELSE {"C06.WellFormed"})
+          \cup (IF WellFormedR(r) THEN {} ELSE {"C06.WellFormed"})
           \cup (IF e.r2.ok /\ e.r2.val = r.val THEN {} ELSE {"C08.Idempotent"})
           \cup (IF e.back.ok /\ WhollyKnown(in) /\ RoundTripExact(in.ty, StripOpt(t)) /\ ~AbsEq(e.back.val, in) THEN {"C08.RoundTrip"} ELSE {})
           \cup (IF in.st = "null" /\ r.val.st # "null" THEN {"C08.NullPassThrough"} ELSE {})
